@@ -28,6 +28,24 @@ def err_parts(eng, st, ev):
         return [(0, "?", None)]
     for ei, efs in ev.variants:
         en = eng.T.variant_name(ev.ty, ei)
+        if en == "IncompleteParse" and efs:
+            # the crate's own error for missing bytes (what a nom Incomplete is converted to), built directly
+            od = efs[0]
+            if isinstance(od, Top):
+                od = eng.M.force(st, od)
+            if isinstance(od, Enum):
+                for oi, ofs in od.variants:
+                    if eng.T.variant_name(od.ty, oi) == "None":
+                        out.append((ei, "Incomplete", "unknown"))
+                    else:
+                        nz = ofs[0]
+                        if isinstance(nz, Top):
+                            nz = eng.M.force(st, nz)
+                        v = nz.fields[0] if isinstance(nz, Struct) and nz.fields else (nz if isinstance(nz, Int) else None)
+                        out.append((ei, "Incomplete", v.lin if isinstance(v, Int) else "?"))
+            else:
+                out.append((ei, "Incomplete", "?"))
+            continue
         if en != "Incomplete":
             out.append((ei, en, None))
             continue
@@ -119,6 +137,16 @@ def check_exits(ctx, eng, outs, fn, b, consume=False, strict_verdict=False):
                         continue
                     if wsh and any(k == ("find", "none") for k in st.key):
                         continue  # no pattern in >= 16 bytes: not a prefix of a well-formed message
+                    hs_ = hint.single_sym() if hasattr(hint, "single_sym") else None
+                    tm_ = eng.sym_terms.get(hs_) if hs_ else None
+                    if tm_ is not None and tm_[0] == "sat" and tm_[1] == "Sub" and hint == Lin.sym(hs_):
+                        # `NonZeroUsize::new(a.saturating_sub(b))` is Some only when a > b, and then it is a - b
+                        try:
+                            st = st.fork()
+                            st.add_fact(tm_[2].sub(tm_[3]).sub(Lin.const(1)), eng)
+                            hint = tm_[2].sub(tm_[3])
+                        except Exception:
+                            pass
                     end, why = min_end(eng, st, wsh, Lin.const(16) if consume else None)
                     lo_ok = True  # Needed::Size carries a NonZeroUsize: >= 1 by the type's invariant (new_unchecked is deny-listed)
                     hi_ok = st.holds(end.sub(ilen).sub(hint), eng)
